@@ -213,6 +213,18 @@ struct _promise_base {
   // null until this coroutine is awaited; stays null when async stack support
   // is disabled
   AsyncStackFrame* frame_{};
+  // when our awaiter had to adapt its promise's stop token to an
+  // inplace_stop_token, this unsubscribes that adapter; needed on the done
+  // path, where the awaiter's await_resume() never runs, so that nothing stays
+  // registered on the consumer's stop token once it has been completed
+  void (*unsubscribeAdapter_)(void*) noexcept {};
+  void* awaiter_{};
+
+  void unsubscribe_stop_token_adapter() noexcept {
+    if (auto* unsubscribe = std::exchange(unsubscribeAdapter_, nullptr)) {
+      unsubscribe(awaiter_);
+    }
+  }
 };
 
 /**
@@ -224,6 +236,8 @@ struct _task_promise_base : _promise_base {
       if (frame_) {
         popAsyncStackFrameFromCaller(*frame_);
       }
+
+      unsubscribe_stop_token_adapter();
 
       return continuation_.done_handle();
     }) {}
@@ -552,6 +566,10 @@ struct _sr_thunk_promise_base : _promise_base {
 
     callback_.destruct();
 
+    if (whoToContinue == continuation_.done_handle()) {
+      unsubscribe_stop_token_adapter();
+    }
+
     // whoToContinue_ needs to be written before we decrement the refcount
     // to ensure that we synchronize this write with the corresponding
     // read in the deferred stop callback's completion
@@ -696,6 +714,10 @@ struct _awaiter final {
       if constexpr (needs_stop_token_t::value) {
         promise.stoken_ =
             stopTokenAdapter_.subscribe(get_stop_token(h.promise()));
+        promise.awaiter_ = this;
+        promise.unsubscribeAdapter_ = [](void* self) noexcept {
+          static_cast<type*>(self)->stopTokenAdapter_.unsubscribe();
+        };
       } else {
         promise.stoken_ = get_stop_token(h.promise());
       }
@@ -767,7 +789,7 @@ struct _awaiter final {
     UNIFEX_NO_UNIQUE_ADDRESS
     conditional_t<
         needs_stop_token_t::value,
-        inplace_stop_token_adapter<stop_token_t>,
+        detail::inplace_stop_token_adapter_subscription<stop_token_t>,
         detail::_empty<1>>
         stopTokenAdapter_;
     UNIFEX_NO_UNIQUE_ADDRESS
